@@ -60,6 +60,16 @@ func (a *aggSpec) build() search.Aggregation {
 			t.AddAggregation(n, s.build())
 		}
 		return t
+	case "fterms": // terms over a filtered source (a sibling of plain aggregations over the same field)
+		t := aggregations.NewTermsAggregation(aggregations.FilterText(search.Field(a.Field), func(b []byte) bool { return keepText(string(b)) }), a.Size)
+		for n, s := range a.Sub {
+			t.AddAggregation(n, s.build())
+		}
+		return t
+	case "fsum":
+		return aggregations.Sum(aggregations.FilterNumeric(search.Field(a.Field), keepNum))
+	case "fcard":
+		return aggregations.Cardinality(aggregations.FilterText(search.Field(a.Field), func(b []byte) bool { return keepText(string(b)) }))
 	case "ranges":
 		r := aggregations.Ranges(search.Field(a.Field))
 		for i, rg := range a.Ranges {
@@ -88,6 +98,10 @@ func (a *aggSpec) build() search.Aggregation {
 	}
 	panic("agg kind " + a.Kind)
 }
+
+// the predicates of the filtered sources: keep a little more than half of the values, decided by content
+func keepText(s string) bool { return len(s) == 0 || (int(s[len(s)-1])+len(s))%3 != 0 }
+func keepNum(v float64) bool  { return v >= 0 || math.Mod(math.Floor(-v), 2) == 0 }
 
 type c16Witness struct {
 	Batches []*model.Batch
@@ -147,6 +161,29 @@ func (e *c16Env) checkAggs(path string, specs map[string]*aggSpec, calcs map[str
 			}
 			if !closeTo(metric(), s) {
 				e.fail("sum-wrong", p, fmt.Sprintf("want %v got %v over %d values", s, metric(), len(vals)))
+			}
+		case "fsum":
+			s, k := 0.0, 0
+			for _, v := range vals {
+				if keepNum(v) {
+					s += v
+					k++
+				}
+			}
+			if !closeTo(metric(), s) {
+				e.fail("filtered-sum-wrong", p, fmt.Sprintf("want %v got %v over %d kept of %d values", s, metric(), k, len(vals)))
+			}
+		case "fcard":
+			h := hyperloglog.New16()
+			for _, d := range docs {
+				for _, t := range d.Kw[sp.Field] {
+					if keepText(t) {
+						h.Insert([]byte(t))
+					}
+				}
+			}
+			if uint64(metric()) != h.Estimate() {
+				e.fail("filtered-cardinality-wrong", p, fmt.Sprintf("sketch fed the kept matched values estimates %d, got %v", h.Estimate(), metric()))
 			}
 		case "min", "max":
 			if len(vals) == 0 {
@@ -217,7 +254,7 @@ func (e *c16Env) checkAggs(path string, specs map[string]*aggSpec, calcs map[str
 				}
 				prev = v
 			}
-		case "terms":
+		case "terms", "fterms":
 			tc, ok := calc.(*aggregations.TermsCalculator)
 			if !ok {
 				e.fail("aggregation-missing", p, "not a terms calculator")
@@ -226,6 +263,9 @@ func (e *c16Env) checkAggs(path string, specs map[string]*aggSpec, calcs map[str
 			per := map[string][]*model.Doc{}
 			for _, d := range docs {
 				for _, t := range d.Kw[sp.Field] {
+					if sp.Kind == "fterms" && !keepText(t) {
+						continue
+					}
 					per[t] = append(per[t], d)
 				}
 			}
@@ -263,7 +303,7 @@ func (e *c16Env) checkAggs(path string, specs map[string]*aggSpec, calcs map[str
 				}
 				e.checkAggs(p+"["+b.Name()+"]", sub, b.Aggregations(), per[b.Name()])
 			}
-			if !e.multi[sp.Field] && tc.Other()+ret != len(docs) {
+			if sp.Kind == "terms" && !e.multi[sp.Field] && tc.Other()+ret != len(docs) {
 				e.fail("terms-other-wrong", p, fmt.Sprintf("single-valued field: other %d + returned %d != matches %d", tc.Other(), ret, len(docs)))
 			}
 		case "ranges":
@@ -404,6 +444,16 @@ func genAggs(r *rand.Rand) map[string]*aggSpec {
 	}
 	for i := 0; i < r.Intn(3); i++ {
 		out[fmt.Sprintf("b%d", i)] = genBucketAgg(r, 2)
+	}
+	// in a third of the requests: aggregations over FILTERED sources as siblings of plain ones over the
+	// same fields (all aggregations of a request are fed from the same per-hit value slices)
+	if r.Intn(3) == 0 {
+		out["f-terms"] = &aggSpec{Kind: "fterms", Field: "k", Size: 1 + r.Intn(5), Sub: map[string]*aggSpec{"m": genMetric(r)}}
+		out["f-sum"] = &aggSpec{Kind: "fsum", Field: "n"}
+		out["f-card"] = &aggSpec{Kind: "fcard", Field: "k"}
+		out["plain-terms"] = &aggSpec{Kind: "terms", Field: "k", Size: 50}
+		out["plain-card"] = &aggSpec{Kind: "card", Field: "k"}
+		out["plain-sum"] = &aggSpec{Kind: "sum", Field: "n"}
 	}
 	return out
 }
